@@ -1,5 +1,6 @@
 import Ptn.C09.Model
 import Ptn.Common.AnalysisLocal
+import Ptn.Common.AnalysisProj
 /-! Property theorems for C09 (BUG): recursion order — children before parents, every node once,
 root last — for every tree; the conservation consequences are instances of the local-flow
 theorems of `Ptn.Analysis` (the final Galerkin step is an exact flow with an isometric embedding
@@ -112,6 +113,27 @@ theorem galerkin_conserves_energy {N d : Type} [Fintype N] [Fintype d] [Decidabl
         (H *ᵥ (E *ᵥ (NormedSpace.exp ((-Complex.I * t) • (Eᴴ * H * E)) *ᵥ φ))) =
       star (E *ᵥ φ) ⬝ᵥ (H *ᵥ (E *ᵥ φ)) :=
   Ptn.Analysis.local_flow_energy E H hH t φ
+
+open Matrix in
+/-- Rank-adaptive BUG: every new basis contains the old one (it is an orthonormal basis of the span
+    of the old basis and the evolved one, i.e. `Eold = Enew * M` with `M` the basis-change
+    tensor), so the Galerkin initial value `Enewᴴ ψ` represents the old state exactly. -/
+theorem augmented_basis_reproduces_state {N d d' : Type} [Fintype N] [Fintype d] [Fintype d']
+    [DecidableEq d'] (Enew : Matrix N d' ℂ) (Eold : Matrix N d ℂ) (M : Matrix d' d ℂ)
+    (hE : Enewᴴ * Enew = 1) (hM : Eold = Enew * M) (φ : d → ℂ) :
+    Enew *ᵥ (Enewᴴ *ᵥ (Eold *ᵥ φ)) = Eold *ᵥ φ :=
+  Ptn.Analysis.galerkin_initial_value_of_factor Enew Eold M hE hM φ
+
+open Matrix in
+/-- Fixed-rank BUG: projecting onto the new bases and evolving with the projected Hamiltonian never
+    increases the norm. -/
+theorem fixed_rank_step_nonexpansive {N d : Type} [Fintype N] [Fintype d] [DecidableEq N]
+    [DecidableEq d] (E : Matrix N d ℂ) (H : Matrix N N ℂ) (hE : Eᴴ * E = 1) (hH : Hᴴ = H) (t : ℝ)
+    (ψ : N → ℂ) :
+    RCLike.re (star (E *ᵥ (NormedSpace.exp ((-Complex.I * (t : ℂ)) • (Eᴴ * H * E)) *ᵥ (Eᴴ *ᵥ ψ))) ⬝ᵥ
+        (E *ᵥ (NormedSpace.exp ((-Complex.I * (t : ℂ)) • (Eᴴ * H * E)) *ᵥ (Eᴴ *ᵥ ψ))))
+      ≤ RCLike.re (star ψ ⬝ᵥ ψ) :=
+  Ptn.Analysis.fixed_rank_step_nonexpansive E H hE hH t ψ
 
 /-! ### Non-vacuity: root 0 with children 1 (leaf) and 2 (with child 3) -/
 
